@@ -6,10 +6,12 @@ import (
 	"strconv"
 )
 
+var verifStatusText = "later"
+
 func verifStatusErr(k int) error {
 	switch k {
 	case 1:
-		return &SMTPError{Code: 450, EnhancedCode: EnhancedCode{4, 2, 0}, Message: "later"}
+		return &SMTPError{Code: 450, EnhancedCode: EnhancedCode{4, 2, 0}, Message: verifStatusText}
 	case 2:
 		return &SMTPError{Code: 550, EnhancedCode: EnhancedCode{5, 1, 1}, Message: "no"}
 	}
@@ -34,6 +36,10 @@ func verif_C13_lmtp3_thorough() { verifC13(3, 1) }
 
 func verifC13(maxRcpt, preempt int) {
 	verifPreemptBound(preempt)
+	// the text of the 450 status carries one arbitrary printable octet
+	tb := nondetByte()
+	assume(tb > ' ' && tb < 0x7f)
+	verifStatusText = "full" + string([]byte{tb}) + "now"
 	n := nondetInt(1, maxRcpt)
 	addrs := []string{"a@v", "b@v"}
 	rcpts := make([]int, n)
@@ -168,6 +174,9 @@ func verifC13(maxRcpt, preempt int) {
 		named := len(txt) >= 6+len(prefix) && txt[6:6+len(prefix)] == prefix
 		verifAssert(named, "C13.reply-names-its-recipient")
 		verifAssert(f.code == want, "C13.reply-carries-own-status")
+		if want == 450 && named {
+			verifAssert(txt[6+len(prefix):] == verifStatusText, "C13.reply-carries-own-status-text")
+		}
 	}
 	if !closedByPanic {
 		verifReach("C13.connection-continues")
